@@ -9,6 +9,9 @@ CONSTANTS
   InitStores <- CollStores
   PublishAfterUnlock = FALSE
   CreatedRevalidated = FALSE
-  SubSer = TRUE
+  SubSer = FALSE
+  MayCancel = FALSE
+  SnapAtCommit = TRUE
+  CollectLive = TRUE
 INVARIANT EmitSched
 CHECK_DEADLOCK FALSE
